@@ -1,11 +1,13 @@
 package main
 
 import (
+	"bytes"
 	"os"
 	"fmt"
 	"math/rand"
 	"strings"
 
+	"sigs.k8s.io/kustomize/api/resmap"
 	"sigs.k8s.io/kustomize/kyaml/filesys"
 	"sigs.k8s.io/kustomize/kyaml/kio"
 	"sigs.k8s.io/kustomize/kyaml/yaml"
@@ -112,6 +114,70 @@ func init() {
 				return nil
 			})
 			return map[string]interface{}{"ok": written}, "written"
+		}
+	}
+}
+
+// kio.emit: the stream `resWrangler.AsYaml` writes for a list of resources against the model `Kio.emit` applied to the
+// resources' individual encodings (go-yaml's encoding of ONE document is the parameter), and the number of documents the
+// reader then finds against the model's splitter on the model's stream.
+func init() {
+	components["kio.emit"] = func(r *rand.Rand, tier string) (map[string]interface{}, func() (interface{}, string)) {
+		texts := []string{"plain", "two\nlines", "ends in one break\n", "keeps two breaks\n\n", "three\n\n\n", "\n\n", "a\n---\nb", "--- not a separator", "x\n--- y\n",
+			"#not a comment", "tab\there", " lead", "trail \n", "012", ""}
+		n := 1 + r.Intn(4)
+		var docs []map[string]interface{}
+		for i := 0; i < n; i++ {
+			name := pick(r, []string{"a", "b", "c"}) + string(rune('0'+i))
+			var d map[string]interface{}
+			switch r.Intn(3) {
+			case 0:
+				d = map[string]interface{}{"apiVersion": "v1", "kind": "Secret", "metadata": map[string]interface{}{"name": name},
+					"stringData": map[string]interface{}{"a": pick(r, texts), "note": pick(r, texts)}}
+			case 1:
+				d = map[string]interface{}{"apiVersion": "example.com/v1", "kind": "Thing", "metadata": map[string]interface{}{"name": name},
+					"spec": map[string]interface{}{"n": 1, "zz": pick(r, texts)}}
+			default:
+				d = map[string]interface{}{"apiVersion": "v1", "kind": "ConfigMap", "metadata": map[string]interface{}{"name": name, "annotations": map[string]interface{}{"z": pick(r, texts)}},
+					"data": map[string]interface{}{"k": pick(r, texts)}}
+			}
+			docs = append(docs, d)
+		}
+		// the individual encodings, by the real encoder
+		m := resmap.New()
+		var bodies []interface{}
+		ok := true
+		for _, d := range docs {
+			res, err := rf().FromMap(d)
+			if err != nil {
+				ok = false
+				break
+			}
+			b, err := res.AsYAML()
+			if err != nil || !strings.HasSuffix(string(b), "\n") {
+				ok = false
+				break
+			}
+			bodies = append(bodies, strings.TrimSuffix(string(b), "\n"))
+			if err := m.Append(res); err != nil {
+				ok = false
+				break
+			}
+		}
+		args := map[string]interface{}{"bodies": bodies}
+		return args, func() (interface{}, string) {
+			if !ok {
+				return map[string]interface{}{"err": "unmodelled"}, "skip"
+			}
+			out, err := m.AsYaml()
+			if err != nil {
+				return map[string]interface{}{"err": "other"}, "err"
+			}
+			nodes, err := (&kio.ByteReader{Reader: bytes.NewReader(out), OmitReaderAnnotations: true}).Read()
+			if err != nil {
+				return map[string]interface{}{"err": "reader:" + err.Error()}, "reader-err"
+			}
+			return map[string]interface{}{"ok": map[string]interface{}{"stream": string(out), "docs": len(nodes)}}, fmt.Sprintf("docs=%d", len(nodes))
 		}
 	}
 }
